@@ -283,6 +283,28 @@ def Table.observe (t : Table) : Except String Table :=
       let col := (t.cols.getD i []).map Cell.key
       if (setOfList [] col).length ≠ col.length then .error "ValueError" else .ok t.norm
 
+/-- the order in which `table[:, columns]` (`Table.__getitem__`) returns the requested columns: the result is
+given the index_name if its column was requested, and `Columns.order` then shows that column FIRST, whatever
+position it was asked for.  Callers that address the sub-table's columns by position (`get_row_indices`,
+`with_new_column`, `distinct_values`, `inner_join`, `transposed`) see this order (known finding
+C20-index-column-moved-first-in-subtables). -/
+def Table.subNames (t : Table) (names : List String) : List String :=
+  match t.index with
+  | some k => if names.contains k then k :: names.filter (· ≠ k) else names
+  | none => names
+
+/-- `if index_name in result.columns and len(set(result.columns[index_name].tolist())) == len(result)`:
+the index_name is handed to a result only if its column is present and still holds unique values -/
+def keepIndexIfUnique (index : Option String) (header : List String) (cols : List (List Cell)) : Option String :=
+  match index with
+  | none => none
+  | some k =>
+    match header.idxOf? k with
+    | none => none
+    | some i =>
+      let col := (cols.getD i []).map Cell.key
+      if (setOfList [] col).length = nrows cols then some k else none
+
 /-- numpy dtype class of a column, as far as `sorted` cares -/
 inductive ColKind where
   | num | str | bool | obj
@@ -294,15 +316,18 @@ def colKind (c : List Cell) : ColKind :=
   else if c.all (fun x => match x with | .bool _ => true | _ => false) then .bool
   else .obj
 
-/-- `inner_join` with explicit key column names (already lists); `self`'s index_name is handed on -/
+/-- `inner_join` with explicit key column names (already lists).  The key tuples are read from
+`self[:, columns_self]` / `other[:, columns_other]` (index column first, see `subNames`); `self`'s index_name
+is kept only if its column still holds unique values. -/
 def Table.innerJoin (t u : Table) (ks ko : List String) (pre : String := "right_") : Except String Table := do
-  let kS ← t.idxsOf ks
-  let kO ← u.idxsOf ko
+  let kS ← t.idxsOf (t.subNames ks)
+  let kO ← u.idxsOf (u.subNames ko)
   if kS.length ≠ kO.length then throw "RuntimeError"
   -- output_mask = [c for c in other.columns if c not in columns_other]
   let keep := (List.range u.header.length).filter fun j => !(ko.contains (u.name j))
   let cols := innerJoinCols dfl Cell.key kS kO keep t.cols u.cols
-  pure { header := t.header ++ keep.map (fun j => pre ++ u.name j), cols := cols, index := t.index }
+  let header := t.header ++ keep.map (fun j => pre ++ u.name j)
+  pure { header := header, cols := cols, index := keepIndexIfUnique t.index header cols }
 
 /-- `joined(other)` / `inner_join(use_index=False)` without columns: the natural join — the shared
 names, in `self`'s order, are the key columns of both tables -/
@@ -317,6 +342,7 @@ def Table.crossJoin (t u : Table) (pre : String := "right_") : Table :=
 /-- `table[:, columns]` (`Table.__getitem__`): zero-length columns are skipped (`continue`), the index_name
 survives if its column is selected -/
 def Table.takeCols (t : Table) (names : List String) : Except String Table := do
+  let names := t.subNames names
   let sel ← t.idxsOf names
   if nrows t.cols = 0 then pure { header := [], cols := [], title := t.title }
   else
@@ -334,38 +360,43 @@ def Table.getColumns (t : Table) (names : List String) (withIndex : Bool := true
 def Table.filtered (t : Table) (p : List Cell → Bool) (names : List String) : Except String Table := do
   if nrows t.cols = 0 then pure t      -- "no point filtering if no rows": returns self before looking at columns
   else
-    let sel ← t.idxsOf names
+    let sel ← t.idxsOf (t.subNames names)       -- the callback sees the cells of `self[:, columns]`
     pure { t with cols := filteredCols dfl p sel t.cols }
 
 /-- `get_row_indices(callback, columns, negate)`: the boolean mask -/
 def Table.rowIndices (t : Table) (p : List Cell → Bool) (names : List String) (negate : Bool) :
     Except String (List Bool) := do
-  let sel ← t.idxsOf names
+  let sel ← t.idxsOf (t.subNames names)
   pure ((List.range (nrows t.cols)).map fun i => p (rowAt dfl (selectCols sel t.cols) i) != negate)
 
 /-- `count(callback, columns)` -/
 def Table.count (t : Table) (p : List Cell → Bool) (names : List String) : Except String Nat := do
   if nrows t.cols = 0 then pure 0
   else
-    let sel ← t.idxsOf names
+    let sel ← t.idxsOf (t.subNames names)
     pure (filterIdx dfl p sel t.cols).length
 
-/-- `filtered_by_column(callback)`: the columns the callback accepts; attributes (index_name) handed on -/
+/-- `filtered_by_column(callback)`: the columns the callback accepts; the index_name is kept only if its
+column is among them -/
 def Table.filteredByColumn (t : Table) (p : List Cell → Bool) : Table :=
   let keep := (List.range t.header.length).filter fun j => p (t.cols.getD j [])
-  { t with header := keep.map t.name, cols := selectCols keep t.cols }
+  let header := keep.map t.name
+  { t with header := header, cols := selectCols keep t.cols,
+           index := match t.index with
+             | some k => if header.contains k then some k else none
+             | none => none }
 
 def Table.countUnique (t : Table) (names : List String) : Except String (List (List Key × Nat)) := do
   let sel ← t.idxsOf names
   pure (countUniqueCols dfl Cell.key sel t.cols)
 
 def Table.distinctValues (t : Table) (names : List String) : Except String (List (List Key)) := do
-  let sel ← t.idxsOf names
+  let sel ← t.idxsOf (t.subNames names)         -- tuples of `self[:, columns].array`
   pure (distinctCols dfl Cell.key sel t.cols)
 
 def Table.withNewColumn (t : Table) (newName : String) (f : List Cell → Cell) (names : List String) :
     Except String Table := do
-  let sel ← t.idxsOf names
+  let sel ← t.idxsOf (t.subNames names)         -- the callback sees the cells of `self[:, columns]`
   -- the callback is evaluated on the *original* table; a column called `newName` is dropped
   let newCol := (List.range (nrows t.cols)).map fun i => f (rowAt dfl (selectCols sel t.cols) i)
   let keepPos := (List.range t.header.length).filter fun j => t.name j ≠ newName
@@ -376,19 +407,23 @@ def Table.withNewColumn (t : Table) (newName : String) (f : List Cell → Cell) 
   pure { header := header, cols := selectCols keepPos t.cols ++ [newCol], title := t.title, index := idx }
 
 /-- `appended(new_column, *tables)`: columns matched by name, `self`'s order and attributes -/
+def Table.alignTo (t u : Table) : Except String (List (List Cell)) :=
+  -- `assert set(table.columns.order) == columns`; `raw_data[c].extend(...)` by column name
+  if u.header.length ≠ t.header.length then .error "AssertionError"
+  else match u.idxsOf t.header with
+    | .ok sel => .ok (selectCols sel u.cols)
+    | .error _ => .error "AssertionError"
+
 def Table.appended (t : Table) (newCol : Option String) (others : List Table) : Except String Table := do
   let all := t :: others
-  let aligned ← all.mapM fun u => do
-    if u.header.length ≠ t.header.length then throw "AssertionError"
-    let sel ← (t.header.mapM u.idxOf).mapError (fun _ => "AssertionError")
-    pure (selectCols sel u.cols)
+  let aligned ← all.mapM t.alignTo
   let body := appendCols aligned
   match newCol with
-  | none => pure { header := t.header, cols := body, index := t.index }
+  | none => pure { header := t.header, cols := body, index := keepIndexIfUnique t.index t.header body }
   | some n =>
     if t.header.contains n then throw "AssertionError"
-    pure { header := n :: t.header,
-           cols := titleCol (all.map fun u => Cell.str u.title) aligned :: body, index := t.index }
+    let cols := titleCol (all.map fun u => Cell.str u.title) aligned :: body
+    pure { header := n :: t.header, cols := cols, index := keepIndexIfUnique t.index (n :: t.header) cols }
 
 /-- `str(value)` of a cell used as a column name by `transposed` -/
 def Cell.pyStr : Cell → Option String
@@ -403,13 +438,17 @@ def Table.transposed (t : Table) (newName : String) (selectAs : Option String) :
   let si ← (t.idxOf sname).mapError (fun _ => "AssertionError")
   let hcol := t.cols.getD si []
   if (setOfList [] (hcol.map Cell.key)).length ≠ nrows t.cols then throw "ValueError"
-  let others := (List.range t.header.length).filter (· ≠ si)
-  let names ← hcol.mapM fun c => match c.pyStr with
+  -- `columns = [select_as_header] + [c for c in self.columns if c != select_as_header]`
+  let columns := sname :: t.header.filter (· ≠ sname)
+  -- `data = self[:, columns].array`: the index column comes first, whichever column was selected
+  let sel ← t.idxsOf (t.subNames columns)
+  let data := rowsOf dfl (selectCols sel t.cols)
+  -- `for row in data: c = str(row.pop(0)); result.columns[c] = row`
+  let names ← data.mapM fun r => match (r.headD .missing).pyStr with
     | some s => pure s
     | none => throw "unmodelled"
   pure { header := newName :: names,
-         cols := (others.map fun j => Cell.str (t.name j)) ::
-                 transposeCols dfl (selectCols others t.cols) }
+         cols := (columns.tail.map Cell.str) :: data.map List.tail }
 
 /-- the column list logic at the top of `sorted` -/
 def sortColumns (header : List String) (columns : Option (List String)) (reverse : List String) : List String :=
@@ -451,62 +490,41 @@ def sortKeyOf (sel : List Nat) (kinds : List ColKind) (revs : List Bool) (uniqs 
     | .ok f => f
     | .error _ => .bool false
 
-def Table.sorted (t : Table) (columns : Option (List String)) (reverse : List String) : Except String Table := do
+/-- the loop `for c in reverse: index = columns.index(c); …` -/
+def checkReverse (t : Table) (cols : List String) (n : Nat) : List String → Except String Unit
+  | [] => .ok ()
+  | c :: rest =>
+    if !cols.contains c then .error "ValueError"       -- `columns.index(c)`
+    else
+      let col := t.cols.getD ((t.header.idxOf? c).getD 0) []
+      if colKind col = .num ∧ n = 0 then .error "ValueError"        -- numpy.vectorize(_reverse_num) on size 0
+      else if colKind col ≠ .num ∧ colKind col = .obj ∧ n ≥ 2 then .error "TypeError"   -- numpy.unique sorts objects
+      else checkReverse t cols n rest
+
+/-- key columns must be homogeneous (like is compared with like; otherwise python raises TypeError) -/
+def checkKinds : List ColKind → Except String Unit
+  | [] => .ok ()
+  | k :: ks => if k = .obj then .error "TypeError" else checkKinds ks
+
+def Table.sorted (t : Table) (columns : Option (List String)) (reverse : List String) : Except String Table :=
   let cols := sortColumns t.header columns reverse
-  let sel ← t.idxsOf cols
-  let n := nrows t.cols
-  -- `for c in reverse: index = columns.index(c); …`
-  for c in reverse do
-    if !cols.contains c then throw "ValueError"
-    let col := t.cols.getD ((t.header.idxOf? c).getD 0) []
-    if colKind col = .num then
-      if n = 0 then throw "ValueError"               -- numpy.vectorize(_reverse_num) on a size-0 input
-    else if colKind col = .obj ∧ n ≥ 2 then throw "TypeError"   -- numpy.unique sorts the object array
-  if n ≤ 1 then pure t                                -- nothing is compared
-  else
-    let kinds := sel.map fun j => colKind (t.cols.getD j [])
-    -- key columns must be homogeneous (like is compared with like; otherwise python raises TypeError)
-    for k in kinds do
-      if k = .obj then throw "TypeError"
-    let revs := cols.map (reverse.contains ·)
-    let uniqs := sel.map fun j => uniqOf (t.cols.getD j [])
-    -- `argsort` on the records of transformed key fields, and `col[indices]` for every column
-    pure { t with cols := sortedCols dfl lexLe (sortKeyOf sel kinds revs uniqs) t.cols }
-
-/-! ### current index_name rules (repo commits 139023fff, 8fa17c558)
-
-`Table.innerJoin`, `Table.appended` and `Table.filteredByColumn` above hand `self`'s index_name on
-unconditionally — the code BEFORE those commits (the result then raised `ValueError` on first use, or kept an
-index_name whose column was not selected).  The functions below mirror the code as it is now and are the ones
-the driver runs. -/
-
-/-- `if index_name in result.columns and len(set(result.columns[index_name].tolist())) == len(result)` -/
-def keepIndexIfUnique (index : Option String) (header : List String) (cols : List (List Cell)) : Option String :=
-  match index with
-  | none => none
-  | some k =>
-    match header.idxOf? k with
-    | none => none
-    | some i =>
-      let col := (cols.getD i []).map Cell.key
-      if (setOfList [] col).length = nrows cols then some k else none
-
-/-- CURRENT `inner_join`: the index_name is kept only if its column still has unique values -/
-def Table.innerJoinCur (t u : Table) (ks ko : List String) (pre : String := "right_") : Except String Table := do
-  let r ← t.innerJoin u ks ko pre
-  pure { r with index := keepIndexIfUnique t.index r.header r.cols }
-
-/-- CURRENT `appended`: likewise (unique across all appended tables) -/
-def Table.appendedCur (t : Table) (newCol : Option String) (others : List Table) : Except String Table := do
-  let r ← t.appended newCol others
-  pure { r with index := keepIndexIfUnique t.index r.header r.cols }
-
-/-- CURRENT `filtered_by_column`: the index_name is kept only if its column was selected -/
-def Table.filteredByColumnCur (t : Table) (p : List Cell → Bool) : Table :=
-  let r := t.filteredByColumn p
-  { r with index := match t.index with
-      | some k => if r.header.contains k then some k else none
-      | none => none }
+  match t.idxsOf cols with
+  | .error e => .error e
+  | .ok sel =>
+    let n := nrows t.cols
+    match checkReverse t cols n reverse with
+    | .error e => .error e
+    | .ok _ =>
+      if n ≤ 1 then .ok t                                -- nothing is compared
+      else
+        let kinds := sel.map fun j => colKind (t.cols.getD j [])
+        match checkKinds kinds with
+        | .error e => .error e
+        | .ok _ =>
+          let revs := cols.map (reverse.contains ·)
+          let uniqs := sel.map fun j => uniqOf (t.cols.getD j [])
+          -- `argsort` on the records of transformed key fields, and `col[indices]` for every column
+          .ok { t with cols := sortedCols dfl lexLe (sortKeyOf sel kinds revs uniqs) t.cols }
 
 /-! ### `table[rows, columns]` -/
 
